@@ -299,6 +299,8 @@ def harvest_single(std):
                     text = ent["lines"][0]
                     if text.lower().startswith(("end", "contains", "else", "case", "entry")):
                         continue
+                    if not text[:1].isalpha():
+                        continue  # e.g. bare numbers: a label without a statement
                     _HARVEST["f2008"].append(text)
                     if ent["std"] == "f2003":
                         _HARVEST["f2003"].append(text)
